@@ -240,7 +240,9 @@ func drawTimestampString(t *rapid.T) strCase {
 		}
 		return rapid.SampledFrom(common).Draw(t, label)
 	}
-	two := func(label string, lo, hi int) string { return fmt.Sprintf("%02d", rapid.IntRange(lo, hi).Draw(t, label)) }
+	two := func(label string, lo, hi int) string {
+		return fmt.Sprintf("%02d", rapid.IntRange(lo, hi).Draw(t, label))
+	}
 	if class == 11 {
 		c.Class = "constant"
 		c.S = rapid.SampledFrom([]string{
@@ -352,13 +354,13 @@ func tsNonTrivial(c strCase) bool {
 
 func TestTimestampParse(t *testing.T) {
 	pbt.Run(t, pbt.Prop[strCase]{
-		Name: "timestamp-parse",
-		Rule: "strings for a Timestamp (top level or message field) assembled field by field from the RFC 3339 shape with variations: years 0000/0001/9999/10000/3-digit/signed, months and days incl. 00/13/32/one digit/Feb 29-30, separators T/t/space/none, hours incl. 24 and one digit, minutes/seconds incl. 60/61/one digit, fraction none / '.' with 0..12 digits / ',' with 1..14 digits, zones Z/z/none/+-hh:mm incl. 24:00, 23:60, 25:00, missing colon; plus one-character mutations and hostile constants. Strict strings (upper-case T/Z, '.', two-digit fields in range, <= 9 fraction digits): accepted iff the instant is within years 1..9999, with the exact (seconds, nanos) from an own civil-date computation; anything else must be rejected, except lower-case t/z, space separator and second 60 (unspecified). non-trivial = shape matches and the verdict hangs on one field (offset, fraction length, range end, leap day, a lenient form)",
+		Name:       "timestamp-parse",
+		Rule:       "strings for a Timestamp (top level or message field) assembled field by field from the RFC 3339 shape with variations: years 0000/0001/9999/10000/3-digit/signed, months and days incl. 00/13/32/one digit/Feb 29-30, separators T/t/space/none, hours incl. 24 and one digit, minutes/seconds incl. 60/61/one digit, fraction none / '.' with 0..12 digits / ',' with 1..14 digits, zones Z/z/none/+-hh:mm incl. 24:00, 23:60, 25:00, missing colon; plus one-character mutations and hostile constants. Strict strings (upper-case T/Z, '.', two-digit fields in range, <= 9 fraction digits): accepted iff the instant is within years 1..9999, with the exact (seconds, nanos) from an own civil-date computation; anything else must be rejected, except lower-case t/z, space separator and second 60 (unspecified). non-trivial = shape matches and the verdict hangs on one field (offset, fraction length, range end, leap day, a lenient form)",
 		Draw:       drawTimestampString,
 		Check:      checkTimestampString,
 		NonTrivial: tsNonTrivial,
 		Classes:    tsClasses,
-		Quick:      150000, Thorough: 800000,
+		Quick:      150000, Thorough: 600000,
 	})
 }
 
